@@ -1,7 +1,7 @@
 /-
 Model of `src/miniscript/types/extra_props.rs` (`ExtData`, `SatData`, `TimelockInfo`),
 `script_num_size` (src/lib.rs) and `Miniscript::script_size` (src/miniscript/mod.rs).
-Follows the Rust arithmetic literally (including the places where it is off).
+Follows the Rust arithmetic literally.
 -/
 import MsVerif.Model.Ast
 
@@ -82,7 +82,7 @@ def TRUE : ExtData := ⟨1, false, 0, some ⟨0, 0, 0, 1, 0⟩, none, {}, 0⟩
 /-- (key_bytes, max_sig_bytes) of `pk_k` / `pk_h` -/
 def keySig (ctx : Ctx) (uncompressed : Bool) : Nat × Nat :=
   match ctx.sigType with
-  | .ecdsa => if uncompressed then (65, 73) else (34, 73)
+  | .ecdsa => if uncompressed then (66, 73) else (34, 73)
   | .schnorr => (33, 66)
 
 def pkK (ctx : Ctx) (unc : Bool) : ExtData :=
@@ -100,7 +100,7 @@ def numCost (k n : Nat) : Nat :=
 /-- `uncs`: per key, whether it is uncompressed -/
 def multi (k : Nat) (uncs : List Bool) : ExtData :=
   let n := uncs.length
-  ⟨numCost k n + (uncs.map (fun u => if u then 65 else 34)).sum + 1, true, 1,
+  ⟨numCost k n + (uncs.map (fun u => if u then 66 else 34)).sum + 1, true, 1,
    some ⟨1 + 73 * k, k + 1, 1 + 73 * k, n, n⟩, some ⟨1 + k, k + 1, 1 + k, n, n⟩, {}, 0⟩
 
 def multiA (k n : Nat) : ExtData :=
@@ -129,7 +129,7 @@ def castCheck (s : ExtData) : ExtData :=
   ⟨s.pkCost + 1, true, 1 + s.staticOps, s.satData, s.dissatData, s.timelockInfo, s.treeHeight + 1⟩
 def castDupIf (s : ExtData) : ExtData :=
   ⟨s.pkCost + 3, false, 3 + s.staticOps,
-   s.satData.map (fun d => ⟨d.wSize + 1, d.wCount + 2, d.ssSize + 1, max 1 d.execStack, d.execOps⟩),
+   s.satData.map (fun d => ⟨d.wSize + 2, d.wCount + 1, d.ssSize + 1, max 1 d.execStack, d.execOps⟩),
    some ⟨1, 1, 1, 1, 0⟩, s.timelockInfo, s.treeHeight + 1⟩
 def castVerify (s : ExtData) : ExtData :=
   let vc := if s.hasFreeVerify then 0 else 1
@@ -208,7 +208,7 @@ def threshFold (k : Nat) (proj : SatData → Nat) (cmb : Nat → Nat → Nat) :
     Nat → Nat → List SD → Option Nat
   | _, acc, [] => some acc
   | i, acc, (sat, dissat) :: rest =>
-    if i ≤ k then
+    if i < k then
       match sat with
       | some x => threshFold k proj cmb (i + 1) (cmb acc (proj x)) rest
       | none => none
